@@ -17,6 +17,7 @@ def run(tier, wd):
     p = g.STD_PROG
     keys = [g.opt_key(o["names"]) for o in p["opts"]]
     q = tier == "quick"
+    core.replay_witnesses(rep, binpath, wd)
     specs = g.family(p, 30 if q else 300, core.seed(), want=want)
     for s in specs:
         s["hasend"] = g.has(s["ast"], "end")
